@@ -23,7 +23,7 @@ RULE = ('stateful: a history = generated workbook + sequence of set_cells batche
         'prefix ending in a query; non-trivial = the history wrote some cell at least twice with different values, or overrode a formula '
         'cell, or a cell beyond the used range, before a query; distinct = distinct history JSON; histories with repeated writes are '
         'also replayed under PYTHONHASHSEED 1,2,3 (thorough: 1..12)')
-ASSUMPTIONS = ['override values never start with "=", are never None or the empty text; float overrides are finite',
+ASSUMPTIONS = ['override values never start with "=", are never None or the empty text; float overrides are finite and not integral (a workbook stores 2.0 as 2)',
                'whole-column references are not generated (a translation enumerates the stored rows; an override beyond them cannot join in)',
                'values are compared with ==, exceptions by type']
 
@@ -208,7 +208,7 @@ def build_machine(rec, histories_out):
     from hypothesis import strategies as st
     from hypothesis.stateful import RuleBasedStateMachine, rule, initialize, precondition
 
-    value = st.one_of(st.integers(-20, 99), st.integers(0, 9), st.sampled_from([2.5, 0.5, -1.25, 1e6]), st.booleans(),
+    value = st.one_of(st.integers(-20, 99), st.integers(0, 9), st.sampled_from([2.5, 0.5, -1.25, 1250000.5]), st.booleans(),
                       st.sampled_from(['abc', 'x y', '12', 'TRUE', "it's"]), st.just({'$dt': '2024-02-29T00:00:00'}))
     addressing = st.sampled_from(['a1', 'a1', 'num', 'mixed'])
 
